@@ -37,6 +37,8 @@ ENCODED = ["mitmproxy.addons.dumper:Dumper.echo_flow", "mitmproxy.addons.dumper:
 CHARS = [("nul", "\x00"), ("bel", "\x07"), ("bs", "\x08"), ("esc", "\x1b"), ("us", "\x1f"), ("del", "\x7f"),
          ("c1-pad", "\x80"), ("c1-nel", "\x85"), ("c1-csi", "\x9b"), ("c1-osc", "\x9d"), ("c1-apc", "\x9f"),
          ("tab", "\t"), ("lf", "\n"), ("cr", "\r"), ("ascii", "a"), ("latin1", "é"), ("bmp", "€")]
+CHARS_ALL = ([(f"c0-{i:02x}", chr(i)) for i in range(32)] + [("del", "\x7f")] + [(f"c1-{i:02x}", chr(i)) for i in range(0x80, 0xA0)]
+             + [("ascii", "a"), ("latin1", "é"), ("bmp", "€"), ("astral", "\U0001f600"), ("nbsp", "\xa0"), ("shy", "\xad")])
 # how a character is put into a bytes field
 ENCODINGS = ["utf-8", "latin-1"]
 
@@ -248,13 +250,13 @@ def _cc(text):
     return [ch for ch in text if unicodedata.category(ch) == "Cc" and ch not in "\t\n\r"]
 
 
-def h_dump(X, fields):
+def h_dump(X, fields, chars=None):
     from mitmproxy.addons import dumper
     from mitmproxy.contrib import click as miniclick
 
     t = _ctx()
     field = X.choose("field", fields)
-    label, c = X.choose("char", CHARS)
+    label, c = X.choose("char", chars or CHARS)
     detail = X.choose("flow_detail", 5)
     styled = X.boolean("styled")
     showhost = X.boolean("showhost") if field in ("http.host_header", "http.host", "http.authority") else False
@@ -335,8 +337,9 @@ def obligations(tier):
             bounds="every non-control code point is left unchanged"),
         Symx("bytes-escape-kernel", h_bytes_kernel, bounds="bytes_to_escaped_str on every byte value x keep_spacing x escape_single_quotes", encoded=ENCODED[13:14],
              must_reach=["escaped"]),
-        Symx("dumper-fields", lambda X: h_dump(X, fields),
-             bounds=f"{len(fields)} attacker-controlled fields {fields} x {len(CHARS)} characters {[l for l, _ in CHARS]} x flow_detail 0-4 x styling on/off "
+        Symx("dumper-fields", lambda X: h_dump(X, fields, None if tier == "quick" else CHARS_ALL),
+             bounds=f"{len(fields)} attacker-controlled fields {fields} x " + (f"{len(CHARS)} characters {[l for l, _ in CHARS]}" if tier == "quick" else
+                    f"{len(CHARS_ALL)} characters (every C0, DEL, every C1 control + printable / non-ASCII representatives)") + " x flow_detail 0-4 x styling on/off "
                     "(x byte encoding utf-8/latin-1, content-type, direction, close code, showhost where the field has them)",
              encoded=ENCODED, must_reach=reach, stubs=["mitmproxy.contrib.click.style wrapped by a recording pass-through"], parallel_depth=1),
     ]
